@@ -434,6 +434,9 @@ func checkC08(c c08Case) *evid.Fail {
 			switch {
 			case a.K == "int" && a.I >= 0 && a.I < 1<<53:
 				lits[i] = fmt.Sprint(a.I)
+				if a.I%2 == 0 && a.I < 5000 {
+					lits[i] = "0" + lits[i] // integer literals are decimal, leading zeros or not
+				}
 			case a.K == "int" && a.I < 0 && a.I > -(1<<53):
 				lits[i] = fmt.Sprintf("(0 - %d)", -a.I)
 			case a.K == "string" && !strings.ContainsAny(a.S, "\x00"):
@@ -488,7 +491,9 @@ func c08Run(rec *evid.Recorder, c c08Case) bool {
 
 var c08SubPool = []val{vNull(), vInt(0), vInt(-7), vInt(3), vLong(-9223372036854775807), vLong(9007199254740993), vDouble(2.5), vDouble(-0.5), vFloat(1.5), vString("abc"), vString("12"), vString(""),
 	vBool(true), vSpan(1500 * time.Millisecond), vTime(time.Date(2020, 2, 29, 12, 0, 0, 0, time.UTC)), vArray(vInt(1), vString("a")),
-	vTime(time.Date(2024, 1, 1, 1, 30, 0, 0, east3))}
+	vTime(time.Date(2024, 1, 1, 1, 30, 0, 0, east3)),
+	// two more instants inside the second of the one above: ordering is by instant, not by calendar second
+	vTime(time.Date(2020, 2, 29, 12, 0, 0, 750000000, time.UTC)), vTime(time.Date(2020, 2, 29, 12, 0, 0, 250000001, time.UTC))}
 
 func TestC08_Exhaustive(t *testing.T) {
 	rec := evid.New("C08", "TestC08_Exhaustive", "C08", c08Rule)
